@@ -156,10 +156,12 @@ def main():
         prev = {r["name"]: r for r in json.load(open(path))}
     for r in results:
         prev[r["name"]] = r
+    current = set(n for n, *_ in M) | set(n for n, *_ in REVERTS)
+    prev = {k: v for k, v in prev.items() if k in current}
     allr = sorted(prev.values(), key=lambda r: r["name"])
     json.dump(allr, open(path, "w"), indent=1)
     with open(os.path.join(ROOT, "mutants", "README.md"), "w") as f:
-        f.write("# Sensitivity sweep (tools/mutants.py)\n\nEach row is a breaking change applied to a scratch copy of the repository; 'pinned' / 'upstream' say whether the repository's own tests (glow suite; `-tags test ./server`) still pass with it; the last column is the quick-tier verdict of each targeted check.\n\n| change | what it does | pinned suite | upstream server tests | checks |\n|---|---|---|---|---|\n")
+        f.write("# Sensitivity sweep (tools/mutants.py)\n\nEach row is a breaking change applied to a scratch copy of the repository; 'pinned' / 'upstream' say whether the repository's own tests (glow suite; `-tags test ./server`) still pass with it; the last column is the quick-tier verdict (VERIF_SEED=1) of each targeted check. Rows named equivalent-* change no reachable behaviour and are expected to be MISSED.\n\n| change | what it does | pinned suite | upstream server tests | checks |\n|---|---|---|---|---|\n")
         for r in allr:
             if "checks" not in r:
                 f.write("| %s | %s | - | - | %s |\n" % (r["name"], r.get("note", ""), r["status"]))
